@@ -15,6 +15,7 @@ def corpus_items(tier, seed, bool_only=False, uncompute_opts=(True, False)):
     unit = corpus.u_unit(widths=(2, 3, 4) if tier == "thorough" else (2, 3))
     ctl = corpus.u_ctl()
     orand = corpus.u_bool_or_of_ands()
+    prand = corpus.u_prog_random(300)
     repo = [p for p in corpus.u_repo_frozen() if corpus.size_ok(p[1], max_bits=16, max_nodes=60)]
     if bool_only:
         isb = lambda s: "-> bool:" in s
@@ -22,8 +23,9 @@ def corpus_items(tier, seed, bool_only=False, uncompute_opts=(True, False)):
         ctl = [p for p in ctl if isb(p[1])]
         repo = [p for p in repo if isb(p[1])]
         multi = [p for p in multi if isb(p[1])]
+        prand = [p for p in prand if isb(p[1])]
     core = small[:60] + ctl + unit[:: max(1, len(unit) // 60)][:60]
-    rest = small[60:] + rnd + multi + unit + repo + orand[::7]
+    rest = small[60:] + rnd + multi + unit + repo + orand[::7] + prand
     specs = []
     seen = set()
 
